@@ -125,10 +125,11 @@ const (
 	opLoadDoc
 	opUnmarshalInPlace
 	opReplaceDuringAll
+	opRemoveDuringAll
 	nOps
 )
 
-var opNames = []string{"Add", "Remove", "Get", "Map+mutate", "All", "All+break", "Collect+mutate-original", "MarshalCedar", "JSON-round-trip", "Cedar-round-trip", "LoadDocument", "UnmarshalJSON-into-live-set", "All+replace-others-during-iteration"}
+var opNames = []string{"Add", "Remove", "Get", "Map+mutate", "All", "All+break", "Collect+mutate-original", "MarshalCedar", "JSON-round-trip", "Cedar-round-trip", "LoadDocument", "UnmarshalJSON-into-live-set", "All+replace-others-during-iteration", "All+remove-others-during-iteration"}
 
 type op struct {
 	kind   opKind
@@ -163,7 +164,9 @@ func (o op) String() string {
 func genOp(t *verifsim.Tape) op {
 	o := op{}
 	// weights: mutations are frequent
-	switch x := t.Intn(22); {
+	switch x := t.Intn(23); {
+	case x == 22:
+		o.kind = opRemoveDuringAll
 	case x == 21:
 		o.kind = opReplaceDuringAll
 		o.pol = t.Intn(len(pool))
@@ -242,6 +245,13 @@ type state struct {
 	live  *cedar.PolicySet
 	model map[cedar.PolicyID]*entry
 	held  []heldOutput
+	// an earlier loaded set the caller still holds, with the positions it had when it was
+	// loaded: later loads (of the same or other documents, under other names) must not
+	// change it
+	prev     *cedar.PolicySet
+	prevPos  map[cedar.PolicyID]cedar.Position
+	prevText map[cedar.PolicyID]string
+	loads    int
 }
 
 // heldOutput is a byte slice the set handed out earlier and the caller still holds: it is
@@ -410,6 +420,19 @@ func (st *state) check(step string) *core.Violation {
 		got2 := authorize2(st.live, q)
 		if got2 != got {
 			return viol("isauthorized-differs", "after %s: request %d: PolicySet.IsAuthorized disagrees with Authorize", step, qi)
+		}
+	}
+	// a set loaded earlier and still held by the caller is untouched by everything since
+	if st.prev != nil {
+		n := 0
+		for k, p := range st.prev.All() {
+			n++
+			if p.Position() != st.prevPos[k] || canonText(p) != st.prevText[k] {
+				return viol("earlier-set-changed", "after %s: policy %q of a set loaded earlier (and not touched since) now reports position %+v / text %q; when it was loaded: %+v / %q", step, k, p.Position(), canonText(p), st.prevPos[k], st.prevText[k])
+			}
+		}
+		if n != len(st.prevPos) {
+			return viol("earlier-set-changed", "after %s: a set loaded earlier now holds %d policies, it held %d", step, n, len(st.prevPos))
 		}
 	}
 	// positions (known after a load)
@@ -626,6 +649,33 @@ func (st *state) apply(o op, r *core.Run) *core.Violation {
 			}
 		}
 		r.Count("reach.replace_during_iteration")
+	case opRemoveDuringAll:
+		// like ranging over a plain map: an entry removed before the iteration reaches it
+		// is never produced
+		first := true
+		removed := map[cedar.PolicyID]bool{}
+		for k := range st.live.All() {
+			if removed[k] {
+				return viol("all-yields-removed", "All() yields %q although it was removed earlier in the same iteration (%d removals so far)", k, len(removed))
+			}
+			if _, ok := st.model[k]; !ok {
+				return viol("contents-extra", "All() yields %q which the model does not hold (during iteration)", k)
+			}
+			if first {
+				first = false
+				for _, other := range st.sortedIDs() {
+					if other != k {
+						st.live.Remove(other)
+						delete(st.model, other)
+						removed[other] = true
+					}
+				}
+			}
+		}
+		r.Count("reach.remove_during_iteration")
+		if len(removed) >= 16 {
+			r.Count("reach.remove_during_iteration_ge_16")
+		}
 	case opUnmarshalInPlace:
 		// decode another set's JSON into the live, possibly non-empty set: afterwards the set
 		// holds exactly the decoded document (the receiver is replaced, as a freshly decoded
@@ -655,7 +705,9 @@ func (st *state) apply(o op, r *core.Run) *core.Violation {
 		}
 		buf.WriteString(layouts[o.layout[len(o.doc)]])
 		data := buf.Bytes()
-		ps, err := cedar.NewPolicySetFromBytes("doc.cedar", data)
+		st.loads++
+		fname := fmt.Sprintf("doc%d.cedar", st.loads)
+		ps, err := cedar.NewPolicySetFromBytes(fname, data)
 		if err != nil {
 			return viol("load-error", "loading a valid generated document failed: %v\n%s", err, data)
 		}
@@ -663,19 +715,29 @@ func (st *state) apply(o op, r *core.Run) *core.Violation {
 		st.model = map[cedar.PolicyID]*entry{}
 		for i, pi := range o.doc {
 			line, col := modelPosition(data, starts[i])
-			st.model[cedar.PolicyID(fmt.Sprintf("policy%d", i))] = &entry{text: pool[pi].text, pos: &cedar.Position{Filename: "doc.cedar", Offset: starts[i], Line: line, Column: col}}
+			st.model[cedar.PolicyID(fmt.Sprintf("policy%d", i))] = &entry{text: pool[pi].text, pos: &cedar.Position{Filename: fname, Offset: starts[i], Line: line, Column: col}}
+		}
+		// the same bytes loaded once more under another name give an independent set
+		if twin, err := cedar.NewPolicySetFromBytes("twin-of-"+fname, data); err == nil && st.prev == nil {
+			st.prev = twin
+			st.prevPos = map[cedar.PolicyID]cedar.Position{}
+			st.prevText = map[cedar.PolicyID]string{}
+			for k, p := range twin.All() {
+				st.prevPos[k] = p.Position()
+				st.prevText[k] = canonText(p)
+			}
 		}
 		// diagnostics carry the file name and the statement's position
 		for _, q := range panel {
 			_, diag := cedar.Authorize(ps, panelEntities, q)
 			for _, x := range diag.Reasons {
 				if e := st.model[x.PolicyID]; e == nil || x.Position != *e.pos {
-					return viol("diagnostic-position", "reason for %q reports %+v after loading doc.cedar", x.PolicyID, x.Position)
+					return viol("diagnostic-position", "reason for %q reports %+v after loading %s", x.PolicyID, x.Position, fname)
 				}
 			}
 			for _, x := range diag.Errors {
 				if e := st.model[x.PolicyID]; e == nil || x.Position != *e.pos {
-					return viol("diagnostic-position", "error for %q reports %+v after loading doc.cedar", x.PolicyID, x.Position)
+					return viol("diagnostic-position", "error for %q reports %+v after loading %s", x.PolicyID, x.Position, fname)
 				}
 			}
 		}
@@ -727,7 +789,7 @@ func (p Prop) Run(r *core.Run) *core.Violation {
 		ops = append(ops, o)
 		fmt.Fprint(h, o.String(), ";")
 		switch o.kind {
-		case opAdd, opRemove, opCollectThenMutate, opReplaceDuringAll:
+		case opAdd, opRemove, opCollectThenMutate, opReplaceDuringAll, opRemoveDuringAll:
 			mut++
 		case opRoundTripJSON, opRoundTripCedar, opLoadDoc, opUnmarshalInPlace:
 			rt++
